@@ -24,6 +24,13 @@ pub struct LookupTrace {
     /// store requests of the following put, if any: (dst, token)
     pub stores: Vec<SocketAddrV4>,
     pub arrival_fp: u64,
+    /// answers that arrived after 500 ms but while another request of the lookup was certainly pending
+    /// (sent less than 450 ms earlier and unanswered) and within the socket's retention (< 2 s): the node
+    /// accepts those by design, they count as answers
+    pub late_counted: usize,
+    /// a late answer arrived before the lookup ended at an instant where the trace cannot tell whether
+    /// the lookup was still running: the closure verdicts are not evaluated for this lookup
+    pub ambiguous_late: bool,
 }
 
 /// Reconstruct one lookup (requests of `kinds` for `target` sent by `host` in [from, to]).
@@ -36,6 +43,8 @@ pub fn lookup_trace(sim: &Sim, host: HostId, target: &Id, from: u64, to: u64) ->
             known: BTreeMap::new(),
             stores: vec![],
             arrival_fp: 0,
+            late_counted: 0,
+            ambiguous_late: false,
         };
         let mut reqs: BTreeMap<(SocketAddrV4, u32), u64> = BTreeMap::new();
         for d in tr.iter() {
@@ -57,6 +66,23 @@ pub fn lookup_trace(sim: &Sim, host: HostId, target: &Id, from: u64, to: u64) ->
             }
         }
         let mut answers: Vec<(u64, SocketAddrV4, Krpc)> = vec![];
+        // first reply (response or error) delivered per request
+        let mut first_reply: BTreeMap<(SocketAddrV4, u32), u64> = BTreeMap::new();
+        for d in tr.iter() {
+            if d.dst != me || d.fate != Fate::Delivered {
+                continue;
+            }
+            let Some(k) = Krpc::parse(&d.bytes) else { continue };
+            if k.is_query() {
+                continue;
+            }
+            let key = (d.src, k.tid_u32().unwrap_or(0));
+            if reqs.contains_key(&key) {
+                let at = d.t_deliver.unwrap();
+                let e = first_reply.entry(key).or_insert(at);
+                *e = (*e).min(at);
+            }
+        }
         for d in tr.iter() {
             if d.dst != me || d.fate != Fate::Delivered {
                 continue;
@@ -65,10 +91,20 @@ pub fn lookup_trace(sim: &Sim, host: HostId, target: &Id, from: u64, to: u64) ->
             if !k.is_response() {
                 continue;
             }
-            if let Some(sent) = reqs.get(&(d.src, k.tid_u32().unwrap_or(0))) {
+            let key = (d.src, k.tid_u32().unwrap_or(0));
+            if let Some(sent) = reqs.get(&key) {
                 let at = d.t_deliver.unwrap();
                 if at - sent < 500 * MS && at <= to + SEC {
                     answers.push((at, d.src, k));
+                } else if at - sent >= 500 * MS && at <= to && first_reply.get(&key) == Some(&at) {
+                    // a late answer while the lookup may still be running
+                    let surely_active = reqs.iter().any(|(k2, sent2)| *k2 != key && *sent2 <= at && at - *sent2 <= 450 * MS && first_reply.get(k2).map(|t| *t > at).unwrap_or(true));
+                    if surely_active && at - sent < 2 * SEC {
+                        lt.late_counted += 1;
+                        answers.push((at, d.src, k));
+                    } else {
+                        lt.ambiguous_late = true;
+                    }
                 }
             }
         }
@@ -96,7 +132,287 @@ pub fn sorted(target: &Id, nodes: impl Iterator<Item = (Id, SocketAddrV4)>) -> V
     v
 }
 
+/// Closure / order / replica verdicts of one finished lookup, from its own trace.
+#[allow(clippy::too_many_arguments)]
+fn verdicts(ctx: &RunCtx, sim: &Sim, report: &mut Report, node: HostId, op: OpId, kind: u64, lookup_target: &Id, t0: u64, t1: u64, done: bool, what0: &str) -> LookupTrace {
+    let lt = lookup_trace(sim, node, lookup_target, t0, t1);
+    let what = format!("{what0} queried={} answerers={} known={} late-counted={}", lt.queried.len(), lt.answerers.len(), lt.known.len(), lt.late_counted);
+
+    // (b) no address is queried twice by one lookup
+    let mut seen = BTreeSet::new();
+    for (a, _) in &lt.queried {
+        if !seen.insert(*a) {
+            report.violate("closure", "address-queried-twice", format!("{a} was sent two requests by one lookup; {what}"));
+        }
+    }
+    if lt.ambiguous_late {
+        report.probe("lookups_with_an_ambiguous_late_answer_not_judged", 1);
+        return lt;
+    }
+    if lt.late_counted > 0 {
+        report.probe("lookups_with_a_late_answer_that_counts", 1);
+    }
+    // (a) every one of the 20 best of K has been queried
+    let best: Vec<(Id, SocketAddrV4)> = sorted(lookup_target, lt.known.iter().map(|(a, id)| (*id, *a))).into_iter().take(20).collect();
+    let me = sim.node_addr(node);
+    for (rank, (id, a)) in best.iter().enumerate() {
+        if !seen.contains(a) && *a != me {
+            report.violate(
+                "closure",
+                "closer-known-node-not-queried",
+                format!("{a} (id {}, rank {rank} of the {} entries the lookup was told about) was never queried; {what}", hex8(id), lt.known.len()),
+            );
+            break;
+        }
+    }
+    // (c) reported nodes
+    if report.violation.is_none() {
+        if let Some(Outcome::Nodes(nodes)) = sim.take_outcome(op) {
+            let got: Vec<(Id, SocketAddrV4)> = nodes.iter().map(|x| (*x.id().as_bytes(), x.address())).collect();
+            let mut expect_sorted = got.clone();
+            sort_closest(lookup_target, &mut expect_sorted);
+            if got != expect_sorted {
+                report.violate("order", "reported-nodes-not-sorted", format!("the reported nodes are not in secure-first / XOR order; {what}"));
+            } else if kind == 0 {
+                // find_node: exactly the closest of everything known (answerers need not be listed ones)
+                let known_plus: Vec<(Id, SocketAddrV4)> = lt.known.iter().map(|(a, id)| (*id, *a)).filter(|x| x.1 != me).collect();
+                let best_listed = sorted(lookup_target, known_plus.into_iter());
+                if let Some(last) = got.last() {
+                    for cand in best_listed.iter().take(20) {
+                        let closer = {
+                            let mut pair = vec![*cand, *last];
+                            sort_closest(lookup_target, &mut pair);
+                            pair[0] == *cand && cand != last
+                        };
+                        // only nodes that were *listed* are candidates of the accumulator
+                        if closer && !got.contains(cand) && got.len() >= 20 {
+                            if ctx.verbose {
+                                println!("target {} got:", crate::krpc::hex(lookup_target));
+                                for g in &got {
+                                    println!("  {} {} secure={}", crate::krpc::hex(&g.0), g.1, crate::krpc::bep42_secure(&g.0, *g.1.ip()));
+                                }
+                                println!("best listed:");
+                                for g in best_listed.iter().take(25) {
+                                    println!("  {} {} secure={}", crate::krpc::hex(&g.0), g.1, crate::krpc::bep42_secure(&g.0, *g.1.ip()));
+                                }
+                            }
+                            report.violate("order", "reported-nodes-miss-a-closer-node", format!("find_node reported 20 nodes but {} (id {}) is closer than its last entry; {what}", cand.1, hex8(&cand.0)));
+                            break;
+                        }
+                    }
+                }
+                if got.len() < 20.min(best_listed.len().saturating_sub(1)) && lt.answerers.len() >= 20 {
+                    report.violate("order", "reported-nodes-too-few", format!("find_node reported {} nodes although {} are known; {what}", got.len(), best_listed.len()));
+                }
+            } else {
+                // get_closest_nodes: a prefix of the sorted token-bearing answerers, length >= min(20, available)
+                let responders = sorted(lookup_target, lt.answerers.iter().filter(|(_, v)| v.1).map(|(a, v)| (v.0, *a)));
+                let want = 20.min(responders.len());
+                if got.len() < want || got[..] != responders[..got.len().min(responders.len())] {
+                    report.violate("order", "closest-responders-not-a-prefix", format!("get_closest_nodes returned {} nodes, expected a prefix (>= {want}) of the {} sorted token-bearing answerers; {what}", got.len(), responders.len()));
+                }
+            }
+        }
+    }
+    // (d) writes go to a prefix of the sorted token-bearing answerers
+    if report.violation.is_none() && kind >= 3 && done {
+        let responders = sorted(lookup_target, lt.answerers.iter().filter(|(_, v)| v.1).map(|(a, v)| (v.0, *a)));
+        let want = 20.min(responders.len());
+        let dests: BTreeSet<SocketAddrV4> = lt.stores.iter().copied().collect();
+        if dests.len() < want {
+            report.violate("replicas", "too-few-store-requests", format!("the write went to {} nodes although {} token-bearing answerers exist; {what}", dests.len(), responders.len()));
+        } else {
+            let prefix: BTreeSet<SocketAddrV4> = responders.iter().take(dests.len()).map(|x| x.1).collect();
+            if prefix != dests {
+                let wrong: Vec<_> = dests.difference(&prefix).collect();
+                report.violate("replicas", "store-requests-not-the-closest-responders", format!("the write went to {wrong:?} which are not among the {} closest token-bearing answerers; {what}", dests.len()));
+            }
+        }
+        report.probe("write_lookups", 1);
+    }
+    lt
+}
+
+/// Late-answer family: a small network (everything is among the 20 closest) in which a chain of relays,
+/// each listing the next relay and a dead contact, keeps the lookup running round after round while one
+/// or two *late* peers answer only after 0.52..1.4 s - later than the request timeout, but while younger
+/// requests are certainly pending and within the socket's retention. The node accepts such answers by
+/// design; the nodes they list (hidden peers, closest of all, known to nobody else) are then part of what
+/// the lookup "was told" and fall under the closure, order and replica verdicts like any other.
+fn run_late(ctx: &RunCtx) -> Report {
+    let mut report = Report::default();
+    let mut rng = Rng::new(ctx.seed);
+    let net = NetCfg {
+        latency_min_us: 500,
+        latency_max_us: rng.range(2_000, 90_000),
+        ..NetCfg::default()
+    };
+    let sim = Sim::new(ctx.seed, net);
+    sim.set_snap_mode(SnapMode::Off);
+    let public = rng.chance(1, 2);
+    let target: Id = rng.id();
+    let rawnet = RawNet::new();
+    let mut ips = BTreeSet::new();
+    let mut next_ip = |rng: &mut Rng, i: usize| loop {
+        let ip = if public { pub_ip(rng) } else { priv_ip(100 + i) };
+        if ips.insert(ip) {
+            break ip;
+        }
+    };
+    let mut used_ids: BTreeSet<Id> = BTreeSet::new();
+    let mut fresh_id = |rng: &mut Rng, ip: std::net::Ipv4Addr, close: usize| loop {
+        let mut id = rng.id();
+        id[..close].copy_from_slice(&target[..close]);
+        if close > 0 && close < 20 {
+            id[close] = target[close] ^ (1 << rng.below(8));
+        }
+        if public && rng.chance(1, 2) {
+            id = krpc::bep42_id(ip, id);
+        }
+        if used_ids.insert(id) {
+            break id;
+        }
+    };
+    let m = rng.usize(3, 8); // relays
+    let n_late = rng.usize(1, 2);
+    let n_hidden = rng.usize(1, 3);
+    let n_noise = rng.usize(0, 16usize.saturating_sub(2 * m + n_late + n_hidden));
+    let mut idx = 0usize;
+    let mut relays = vec![];
+    for _ in 0..m {
+        let ip = next_ip(&mut rng, idx);
+        let mut p = Peer::new(fresh_id(&mut rng, ip, 0), SocketAddrV4::new(ip, 6881));
+        p.k = 20;
+        p.delay = rng.range(40, 120) * MS;
+        relays.push(rawnet.add(&sim, p));
+        idx += 1;
+    }
+    let mut lates = vec![];
+    for _ in 0..n_late {
+        let ip = next_ip(&mut rng, idx);
+        let mut p = Peer::new(fresh_id(&mut rng, ip, 0), SocketAddrV4::new(ip, 6882));
+        p.k = 20;
+        p.delay = rng.range(520, 1400) * MS;
+        lates.push(rawnet.add(&sim, p));
+        idx += 1;
+    }
+    let mut hidden = vec![];
+    for _ in 0..n_hidden {
+        let ip = next_ip(&mut rng, idx);
+        // closest of all to the target (as far as the BEP42 prefix allows on public plans)
+        let close = rng.usize(6, 18);
+        let mut p = Peer::new(fresh_id(&mut rng, ip, close), SocketAddrV4::new(ip, 6883));
+        p.k = 20;
+        p.delay = rng.range(0, 100) * MS;
+        hidden.push(rawnet.add(&sim, p));
+        idx += 1;
+    }
+    let mut noise = vec![];
+    for _ in 0..n_noise {
+        let ip = next_ip(&mut rng, idx);
+        let mut p = Peer::new(fresh_id(&mut rng, ip, 0), SocketAddrV4::new(ip, 6884));
+        p.k = 20;
+        p.delay = rng.range(0, 120) * MS;
+        noise.push(rawnet.add(&sim, p));
+        idx += 1;
+    }
+    // knowledge: relay i -> relay i+1, one dead contact, some noise; the first relays list the late peers;
+    // only late peers know the hidden ones
+    for (i, r) in relays.iter().enumerate() {
+        let mut knows = vec![];
+        if i + 1 < m {
+            knows.push(relays[i + 1]);
+        }
+        for l in &lates {
+            if i == 0 || rng.chance(1, 4) {
+                knows.push(*l);
+            }
+        }
+        for x in &noise {
+            if rng.chance(1, 3) {
+                knows.push(*x);
+            }
+        }
+        rng.shuffle(&mut knows);
+        let dead_ip = next_ip(&mut rng, idx);
+        idx += 1;
+        let dead = (fresh_id(&mut rng, dead_ip, 0), SocketAddrV4::new(dead_ip, 6885));
+        rawnet.with_peer(*r, |p| {
+            p.knows = knows;
+            p.extra_nodes.push(dead);
+        });
+    }
+    for l in &lates {
+        let mut knows = hidden.clone();
+        if rng.chance(1, 2) {
+            knows.push(relays[rng.usize(0, m - 1)]);
+        }
+        rawnet.with_peer(*l, |p| p.knows = knows);
+    }
+    for h in hidden.iter().chain(noise.iter()) {
+        let mut knows = vec![];
+        for x in &noise {
+            if x != h && rng.chance(1, 3) {
+                knows.push(*x);
+            }
+        }
+        rawnet.with_peer(*h, |p| p.knows = knows);
+    }
+    let mut spec = NodeSpec::new(if public { pub_ip(&mut rng) } else { priv_ip(1) }, 6881);
+    spec.server_mode = rng.chance(1, 4);
+    spec.bootstrap = vec![rawnet.contact(relays[0]).1.to_string()];
+    if rng.chance(1, 3) {
+        spec.bootstrap.push(rawnet.contact(lates[0]).1.to_string());
+    }
+    let node = sim.add_node(spec);
+    // the node's own bootstrap lookup runs into the same late peers; wait it out (or not: cold start)
+    let warm = rng.chance(2, 3);
+    sim.run_for(if warm { rng.range(6, 30) * SEC } else { 0 });
+
+    let kind = rng.below(5);
+    let value = rng.bytes(16);
+    let lookup_target: Id = match kind {
+        3 => krpc::immutable_target(&value),
+        _ => target,
+    };
+    let t0 = sim.now();
+    let op = match kind {
+        0 => sim.find_node(node, lookup_target),
+        1 => sim.get_closest_nodes(node, lookup_target),
+        2 => sim.get_peers(node, lookup_target),
+        3 => sim.put_immutable(node, value.clone()),
+        _ => sim.announce_peer(node, lookup_target, Some(1)),
+    };
+    let done = sim.run_ops(&[op], sim.now() + 300 * SEC);
+    let t1 = sim.with_op(op, |o| o.done_at).unwrap_or(sim.now());
+    sim.run_for(SEC);
+    if !done {
+        report.violate("hang", "lookup-did-not-finish", format!("lookup kind {kind} in the late-answer network did not finish in 300 s"));
+    }
+    if let Some(d) = sim.died(node) {
+        report.violate("node-died", "node-actor-panicked", format!("node died: {d}"));
+    }
+    let what = format!("late-answer family: kind={kind} relays={m} late={n_late} hidden={n_hidden} noise={n_noise} public={public} warm={warm}");
+    let lt = verdicts(ctx, &sim, &mut report, node, op, kind, &lookup_target, t0, t1, done, &what);
+    report.nontrivial = lt.late_counted > 0;
+    report.probe("late_answer_family_runs", 1);
+    if lt.late_counted > 0 {
+        let hidden_addrs: Vec<SocketAddrV4> = hidden.iter().map(|h| rawnet.contact(*h).1).collect();
+        if hidden_addrs.iter().any(|a| lt.known.contains_key(a)) {
+            report.probe("late_answer_listed_nodes_nobody_else_knows", 1);
+        }
+    }
+    report.fingerprint = crate::rng::key(lt.arrival_fp, &[kind, 777]);
+    let what = format!("{what} queried={} answerers={} known={} late-counted={} ambiguous={}", lt.queried.len(), lt.answerers.len(), lt.known.len(), lt.late_counted, lt.ambiguous_late);
+    report.sample = Some(json!({"scenario": what}));
+    report.plan_dump = Some(what);
+    finish(&sim, report)
+}
+
 fn run(ctx: &RunCtx) -> Report {
+    if ctx.index % 6 == 5 {
+        return run_late(ctx);
+    }
     let mut report = Report::default();
     let mut rng = Rng::new(ctx.seed);
     let net = NetCfg {
@@ -247,94 +563,9 @@ fn run(ctx: &RunCtx) -> Report {
     if let Some(d) = sim.died(node) {
         report.violate("node-died", "node-actor-panicked", format!("node died: {d}"));
     }
-    let lt = lookup_trace(&sim, node, &lookup_target, t0, t1);
-    let what = format!("kind={kind} peers={n} id-plan={plan} public={public} warm={warm} queried={} answerers={} known={}", lt.queried.len(), lt.answerers.len(), lt.known.len());
-
-    // (b) no address is queried twice by one lookup
-    let mut seen = BTreeSet::new();
-    for (a, _) in &lt.queried {
-        if !seen.insert(*a) {
-            report.violate("closure", "address-queried-twice", format!("{a} was sent two requests by one lookup; {what}"));
-        }
-    }
-    // (a) every one of the 20 best of K has been queried
-    let best: Vec<(Id, SocketAddrV4)> = sorted(&lookup_target, lt.known.iter().map(|(a, id)| (*id, *a))).into_iter().take(20).collect();
-    let me = sim.node_addr(node);
-    for (rank, (id, a)) in best.iter().enumerate() {
-        if !seen.contains(a) && *a != me {
-            report.violate(
-                "closure",
-                "closer-known-node-not-queried",
-                format!("{a} (id {}, rank {rank} of the {} entries the lookup was told about) was never queried; {what}", hex8(id), lt.known.len()),
-            );
-            break;
-        }
-    }
-    // (c) reported nodes
-    if report.violation.is_none() {
-        if let Some(Outcome::Nodes(nodes)) = sim.take_outcome(op) {
-            let got: Vec<(Id, SocketAddrV4)> = nodes.iter().map(|x| (*x.id().as_bytes(), x.address())).collect();
-            let mut expect_sorted = got.clone();
-            sort_closest(&lookup_target, &mut expect_sorted);
-            if got != expect_sorted {
-                report.violate("order", "reported-nodes-not-sorted", format!("the reported nodes are not in secure-first / XOR order; {what}"));
-            } else if kind == 0 {
-                // find_node: exactly the closest of everything known (answerers need not be listed ones)
-                let known_plus: Vec<(Id, SocketAddrV4)> = lt.known.iter().map(|(a, id)| (*id, *a)).filter(|x| x.1 != me).collect();
-                let best_listed = sorted(&lookup_target, known_plus.into_iter());
-                if let Some(last) = got.last() {
-                    for cand in best_listed.iter().take(20) {
-                        let closer = {
-                            let mut pair = vec![*cand, *last];
-                            sort_closest(&lookup_target, &mut pair);
-                            pair[0] == *cand && cand != last
-                        };
-                        // only nodes that were *listed* are candidates of the accumulator
-                        if closer && !got.contains(cand) && got.len() >= 20 {
-                            if ctx.verbose {
-                                println!("target {} got:", crate::krpc::hex(&lookup_target));
-                                for g in &got {
-                                    println!("  {} {} secure={}", crate::krpc::hex(&g.0), g.1, crate::krpc::bep42_secure(&g.0, *g.1.ip()));
-                                }
-                                println!("best listed:");
-                                for g in best_listed.iter().take(25) {
-                                    println!("  {} {} secure={}", crate::krpc::hex(&g.0), g.1, crate::krpc::bep42_secure(&g.0, *g.1.ip()));
-                                }
-                            }
-                            report.violate("order", "reported-nodes-miss-a-closer-node", format!("find_node reported 20 nodes but {} (id {}) is closer than its last entry; {what}", cand.1, hex8(&cand.0)));
-                            break;
-                        }
-                    }
-                }
-                if got.len() < 20.min(best_listed.len().saturating_sub(1)) && lt.answerers.len() >= 20 {
-                    report.violate("order", "reported-nodes-too-few", format!("find_node reported {} nodes although {} are known; {what}", got.len(), best_listed.len()));
-                }
-            } else {
-                // get_closest_nodes: a prefix of the sorted token-bearing answerers, length >= min(20, available)
-                let responders = sorted(&lookup_target, lt.answerers.iter().filter(|(_, v)| v.1).map(|(a, v)| (v.0, *a)));
-                let want = 20.min(responders.len());
-                if got.len() < want || got[..] != responders[..got.len().min(responders.len())] {
-                    report.violate("order", "closest-responders-not-a-prefix", format!("get_closest_nodes returned {} nodes, expected a prefix (>= {want}) of the {} sorted token-bearing answerers; {what}", got.len(), responders.len()));
-                }
-            }
-        }
-    }
-    // (d) writes go to a prefix of the sorted token-bearing answerers
-    if report.violation.is_none() && kind >= 3 && done {
-        let responders = sorted(&lookup_target, lt.answerers.iter().filter(|(_, v)| v.1).map(|(a, v)| (v.0, *a)));
-        let want = 20.min(responders.len());
-        let dests: BTreeSet<SocketAddrV4> = lt.stores.iter().copied().collect();
-        if dests.len() < want {
-            report.violate("replicas", "too-few-store-requests", format!("the write went to {} nodes although {} token-bearing answerers exist; {what}", dests.len(), responders.len()));
-        } else {
-            let prefix: BTreeSet<SocketAddrV4> = responders.iter().take(dests.len()).map(|x| x.1).collect();
-            if prefix != dests {
-                let wrong: Vec<_> = dests.difference(&prefix).collect();
-                report.violate("replicas", "store-requests-not-the-closest-responders", format!("the write went to {wrong:?} which are not among the {} closest token-bearing answerers; {what}", dests.len()));
-            }
-        }
-        report.probe("write_lookups", 1);
-    }
+    let what = format!("kind={kind} peers={n} id-plan={plan} public={public} warm={warm}");
+    let lt = verdicts(ctx, &sim, &mut report, node, op, kind, &lookup_target, t0, t1, done, &what);
+    let what = format!("{what} queried={} answerers={} known={}", lt.queried.len(), lt.answerers.len(), lt.known.len());
     report.nontrivial = lt.known.len() > 20 || lt.queried.len() > 3;
     report.probe("peers", n as u64);
     report.probe("requests_sent", lt.queried.len() as u64);
